@@ -262,15 +262,25 @@ of the leaf's branch; `fixed = true` is the repaired variant that deletes the cl
 def deleteKey (fixed : Bool) (m : MsgProof) : ClaimKey :=
   if fixed then m.key else { m.key with et := m.leaf.et }
 
-/-- `ExecuteProof` for a validated proof of the stored claim `c`. -/
+/-- `ExecuteProof` for a validated proof of the stored claim `c`.
+
+Relay leaf: `AwardCoinsForRelays(TotalProofs)`, then `DeleteClaim(…, RelayEvidence)`.
+
+Challenge leaf, as coded (`fixed = false`): the switch runs on the *dereferenced* leaf but the next
+line asserts `proof.GetLeaf().(pc.ChallengeProofInvalidData)` on the original value, which is a
+pointer for every decoded transaction (`ProofI.FromProto` returns `x.ChallengeProof`), so the
+branch always returns `InvalidProofs` before it burns, deletes or pays anything.  `fixed = true`
+executes the branch as it was meant: burn the minority node, delete, pay `TotalProofs/100` relays. -/
 def executeProof (fixed : Bool) (s : State) (m : MsgProof) (c : Claim) (e : ProofEnv) : TxResult :=
   match m.leaf with
   | .relay =>
     ⟨none, { s with claims := s.claims.del (deleteKey fixed m), supply := s.supply + e.reward },
       [.minted m.key c e.reward, .deleted (deleteKey fixed m)]⟩
   | .challenge =>
-    ⟨none, { s with claims := s.claims.del (deleteKey fixed m), supply := s.supply - e.challengeBurn + e.reward },
-      [.challengeBurn e.challengeBurn, .minted m.key c e.reward, .deleted (deleteKey fixed m)]⟩
+    if fixed then
+      ⟨none, { s with claims := s.claims.del (deleteKey fixed m), supply := s.supply - e.challengeBurn + e.reward },
+        [.challengeBurn e.challengeBurn, .minted m.key c e.reward, .deleted (deleteKey fixed m)]⟩
+    else ⟨some Code.invalidProofs, s, []⟩
 
 /-- `handleProofMsg` = `ValidateProof` (checks in the order of the Go code) + the handler's error
 branches + `ExecuteProof`. -/
@@ -330,10 +340,10 @@ def run (fixed : Bool) : State → List Op → State × List Event
     let (s2, ev2) := run fixed s1 ops
     (s2, ev1 ++ ev2)
 
-/-- The proof's leaf type agrees with the evidence type it names (`RelayProof` ↔ 1,
-`ChallengeProofInvalidData` ↔ 2).  The Go code never checks this. -/
+/-- A relay-proof leaf is presented for a claim of evidence type 1 (`RelayEvidence`).  The Go code
+never checks that the leaf type and the evidence type agree. -/
 def Op.typed : Op → Prop
-  | .proof m _ => m.leaf.et = m.key.et
+  | .proof m _ => m.leaf = .relay → m.key.et = 1
   | _ => True
 
 /-- A history in which every proof is `typed`. -/
